@@ -174,6 +174,26 @@ def sealCBC (P : Prims) (k : DirKeys) (st : Stack) (typ ver epoch seq : Nat) (iv
   let pt := body ++ padding body.length
   header st typ ver epoch seq (iv.length + pt.length) ++ iv ++ CBC.encrypt (P.enc k.key) iv pt
 
+/-- 6.3.3.4.2: "padding: … may be any length up to 255 bytes, as long as it results in the
+ciphertext length being an integral multiple of the block length"; every byte of it (and the
+padding_length byte that ends it) carries the value padding_length.  All legal paddings for `n`
+bytes of content ‖ MAC: padding_length = minimal + 16·k ≤ 255. -/
+def paddingOfLength (p : Nat) : Bytes := List.replicate (p + 1) (UInt8.ofNat p)
+
+def legalPaddingLengths (n : Nat) : List Nat :=
+  let p0 := blockLen - 1 - n % blockLen
+  (List.range 16).filterMap fun k => if p0 + blockLen * k ≤ 255 then some (p0 + blockLen * k) else none
+
+/-- A CBC record whose bytes after content ‖ MAC are given verbatim (`tail` = padding ‖
+padding_length as the sender chose to write them). With `tail = paddingOfLength p`, `p` a legal
+padding length, this is a record of the standard (a sender may pad up to 255 bytes); with any other
+`tail` it is what a faulty or hostile sender can put on the wire with the right keys — the
+receiver's padding check is judged on both. -/
+def sealCBCTail (P : Prims) (k : DirKeys) (st : Stack) (typ ver epoch seq : Nat) (iv content tail : Bytes) : Bytes :=
+  let mac := P.hmac k.mac (macInput st typ ver epoch seq content)
+  let pt := content ++ mac ++ tail
+  header st typ ver epoch seq (iv.length + pt.length) ++ iv ++ CBC.encrypt (P.enc k.key) iv pt
+
 /-- an AEAD-protected record with 8-byte explicit nonce `explicit` (sender's choice, unique per key) -/
 def sealGCM (P : Prims) (k : DirKeys) (st : Stack) (typ ver epoch seq : Nat) (explicit content : Bytes) : Bytes :=
   let ct := P.aeadSeal k.key (gcmNonce k.iv explicit) (additionalData st typ ver epoch seq content.length) content
@@ -250,6 +270,18 @@ def explicitPart (m : Mode) (body : Bytes) : Bytes :=
   let r := sealCBC sm k .tlcp 23 0x0101 0 5 (List.replicate 16 9) [1,2,3]
   (parse .tlcp r).map (fun (p, rest) => (p.typ, p.ver, rest.length, (openCBC sm k .tlcp 23 0x0101 0 5 p.body).toOption)) ==
     some (23, 0x0101, 0, some [1,2,3])
+#guard legalPaddingLengths 35 == [12, 28, 44, 60, 76, 92, 108, 124, 140, 156, 172, 188, 204, 220, 236, 252]
+#guard legalPaddingLengths 32 == [15, 31, 47, 63, 79, 95, 111, 127, 143, 159, 175, 191, 207, 223, 239, 255]
+-- long legal padding opens; one damaged padding byte far from the end does not; minimal tail = sealCBC
+#guard
+  let k : DirKeys := ⟨List.replicate 32 1, SM4.katKey, List.replicate 16 2⟩
+  let iv : Bytes := List.replicate 16 9
+  let opens (r : Bytes) := (parse .dtlcp r).map (fun (p, _) => (openCBC sm k .dtlcp 23 0x0101 1 5 p.body).toOption)
+  let good := paddingOfLength 252
+  let bad := good.set 3 0xaa
+  opens (sealCBCTail sm k .dtlcp 23 0x0101 1 5 iv [1,2,3] good) == some (some [1,2,3]) &&
+  opens (sealCBCTail sm k .dtlcp 23 0x0101 1 5 iv [1,2,3] bad) == some none &&
+  sealCBCTail sm k .dtlcp 23 0x0101 1 5 iv [1,2,3] (padding 35) == sealCBC sm k .dtlcp 23 0x0101 1 5 iv [1,2,3]
 #guard
   let k : DirKeys := ⟨[], SM4.katKey, [1,2,3,4]⟩
   let r := sealGCM sm k .dtlcp 23 0x0101 1 7 (be 2 1 ++ be 6 7) [1,2,3]
